@@ -282,6 +282,10 @@ func genCases(rnd *rand.Rand, thorough bool) []mon.CaseSpec {
 				}
 			}
 		}
+		// ---- SUB: the receive deadline while subscriptions and queue length change under the blocked Recv
+		for _, obj := range []string{"sock", "ctx"} {
+			add(spec{Kind: "dl-churn", Proto: "sub", Obj: obj, Op: "recv", Peer: "none", DUs: 100000, K: rnd.Intn(3), Q: 4})
+		}
 		// ---- concurrent best-effort senders racing for the last queue slots
 		for _, o := range sendObjs() {
 			if sendFam[o.proto] != "queue" || o.obj != "sock" {
@@ -338,6 +342,10 @@ func genCases(rnd *rand.Rand, thorough bool) []mon.CaseSpec {
 							s.DUs = 2000000
 						}
 						add(s)
+						if op == "send" && table[o.proto].has(o.obj, optBE) {
+							s.State = "be"
+							add(s)
+						}
 					}
 				}
 				for _, n := range []int{1, 2} {
@@ -373,6 +381,8 @@ func runCase(c *mon.Case, sp spec) {
 		runBEMulti(c, sp)
 	case "be-race":
 		runBERace(c, sp)
+	case "dl-churn":
+		runChurn(c, sp)
 	default:
 		panic("unknown kind " + sp.Kind)
 	}
